@@ -28,8 +28,8 @@ type serReader struct {
 	pos  int
 	cat  string // first error category
 	ood  bool
-	nStr int // string tokens read (keys and values)
-	nFlt int // float tokens read
+	nStr int  // string tokens read (keys and values)
+	raw  bool // keep repeated keys and the token type of keys (parse tree rather than value)
 }
 
 func (p *serReader) fail(cat string) bool {
@@ -123,7 +123,6 @@ func (p *serReader) value(depth int) (*V, bool) {
 			p.ood = true
 			return nil, false
 		}
-		p.nFlt++
 		return vFloat(f), true
 	case 's':
 		s, ok := p.str()
@@ -156,6 +155,7 @@ func (p *serReader) value(depth int) (*V, bool) {
 				return nil, p.fail("truncated")
 			}
 			var key string
+			strKey := false
 			switch p.b[p.pos] {
 			case 'i':
 				k, ok := p.value(depth + 1)
@@ -169,20 +169,25 @@ func (p *serReader) value(depth int) (*V, bool) {
 					return nil, false
 				}
 				key = k
+				strKey = true
 			case '}':
 				return nil, p.fail("array-count-overrun")
+			case 'N', 'b', 'd', 'a':
+				return nil, p.fail("array-key-type") // a value of a type that cannot be a key
 			default:
-				return nil, p.fail("array-key-type")
+				return nil, p.fail("array-key-garbage")
 			}
 			v, ok := p.value(depth + 1)
 			if !ok {
 				return nil, false
 			}
-			if j, dup := idx[key]; dup {
+			if p.raw {
+				out.M = append(out.M, KV{K: key, V: v, SK: strKey})
+			} else if j, dup := idx[key]; dup {
 				out.M[j].V = v
 			} else {
 				idx[key] = len(out.M)
-				out.M = append(out.M, KV{key, v})
+				out.M = append(out.M, KV{K: key, V: v})
 			}
 		}
 		if !p.lit("}") {
@@ -304,7 +309,7 @@ func canonArr(v *V) *V {
 	case KList, KMap:
 		out := vMap()
 		for _, e := range pairs(v) {
-			out.M = append(out.M, KV{e.K, canonArr(e.V)})
+			out.M = append(out.M, KV{K: e.K, V: canonArr(e.V)})
 		}
 		return out
 	}
@@ -380,7 +385,7 @@ func writeSer(sb *strings.Builder, v *V, st sstyle) {
 		ps := pairs(v)
 		sb.WriteString("a:" + cnt(len(ps)) + ":{")
 		for _, e := range ps {
-			if intLike(e.K) {
+			if intLike(e.K) && !e.SK {
 				sb.WriteString("i:" + e.K + ";")
 			} else {
 				wstr(e.K)
@@ -461,6 +466,53 @@ func countStrings(v *V) int {
 	return n
 }
 
+// dedupe turns a parse tree (repeated keys kept) into the value it denotes: the last
+// occurrence of a key wins and keeps the first position.
+func dedupe(v *V) *V {
+	switch v.K {
+	case KList:
+		out := vList()
+		out.L = []*V{}
+		for _, e := range v.L {
+			out.L = append(out.L, dedupe(e))
+		}
+		return out
+	case KMap:
+		out := vMap()
+		idx := map[string]int{}
+		for _, e := range v.M {
+			d := dedupe(e.V)
+			if j, dup := idx[e.K]; dup {
+				out.M[j].V = d
+			} else {
+				idx[e.K] = len(out.M)
+				out.M = append(out.M, KV{K: e.K, V: d})
+			}
+		}
+		return out
+	}
+	return v
+}
+
+func rawTree(text string) *V {
+	p := &serReader{b: []byte(text), raw: true}
+	v, ok := p.value(0)
+	if !ok || p.ood || p.pos != len(p.b) {
+		return nil
+	}
+	return v
+}
+
+func countStrTokens(text string) int {
+	p := &serReader{b: []byte(text)}
+	p.value(0)
+	return p.nStr
+}
+
+// reportUnser turns a failed unserialize of a well-formed document into a keyed violation.
+// The document's parse tree (repeated keys and key token types kept) is shrunk while its
+// plain re-rendering keeps failing the same way, so that the key names a minimal cause even
+// when several defects are present in one document.
 func (s *serSec) reportUnser(text string, want *V, st sstyle, oc serOutcome, r CallResult) {
 	w := s.w
 	pre := "unserialize:"
@@ -468,33 +520,49 @@ func (s *serSec) reportUnser(text string, want *V, st sstyle, oc serOutcome, r C
 		w.Violation(pre+panicKey(r), fmt.Sprintf("unserialize(%q) panics in Go: %v", text, r.Panic), "ser", []byte(text))
 		return
 	}
-	fails := func(v *V) bool {
-		o2, _ := s.judgeUnser(serText(v, sstyle{}), v)
+	fails := func(t *V) bool {
+		o2, _ := s.judgeUnser(serText(t, sstyle{}), dedupe(t))
 		return o2 == oc
 	}
-	nStr := func(t string) int {
-		p := &serReader{b: []byte(t)}
-		p.value(0)
-		return p.nStr
+	tree := rawTree(text)
+	if tree == nil {
+		tree = want
 	}
-	if fails(want) {
-		min := shrink(want, fails)
-		if nStr(serText(min, sstyle{})) >= 2 {
-			w.Violation(pre+oc.String()+":multiple-strings", fmt.Sprintf("unserialize(%q) = %s; the document's value is %s. Minimal failing value %s, serialized %q: a string token that is followed by another double quote later in the document is not read correctly", text, describe(r), want, min, serText(min, sstyle{})), "ser", []byte(text))
+	if fails(tree) {
+		min := shrink(tree, fails)
+		mt := serText(min, sstyle{})
+		if countStrTokens(mt) >= 2 {
+			w.Violation(pre+oc.String()+":multiple-strings", fmt.Sprintf("unserialize(%q) = %s; the document's value is %s. Minimal failing document %q: a string token that is followed by another double quote later in the document is not read correctly", text, describe(r), want, mt), "ser", []byte(text))
 			return
 		}
-		w.Violation(pre+oc.String()+":"+sig(min), fmt.Sprintf("unserialize(%q) = %s; the document's value is %s (minimal failing value %s, serialized %q)", text, describe(r), want, min, serText(min, sstyle{})), "ser", []byte(text))
-		return
-	}
-	if p := (&serReader{b: []byte(text)}); func() bool { p.value(0); return p.nFlt > 0 }() {
-		w.Violation(pre+oc.String()+":float", fmt.Sprintf("unserialize(%q) = %s; the document's value is %s (the document contains a d: token)", text, describe(r), want), "ser", []byte(text))
-		return
-	}
-	if nStr(text) >= 2 {
-		w.Violation(pre+oc.String()+":multiple-strings", fmt.Sprintf("unserialize(%q) = %s; the document's value is %s (the document contains more than one string token)", text, describe(r), want), "ser", []byte(text))
+		w.Violation(pre+oc.String()+":"+sig(min), fmt.Sprintf("unserialize(%q) = %s; the document's value is %s (minimal failing document %q)", text, describe(r), want, mt), "ser", []byte(text))
 		return
 	}
 	w.Violation(pre+oc.String()+":text-form:"+st.tag(), fmt.Sprintf("unserialize(%q) = %s; the document's value is %s and its plain rendering is read correctly", text, describe(r), want), "ser", []byte(text))
+}
+
+// classifyAccept refines the reference reader's rejection category of an input that
+// unserialize accepted, separating the independent causes (see NOTES.md).
+func classifyAccept(in, cat string) string {
+	trimmed := strings.TrimSpace(in)
+	topStr := strings.HasPrefix(trimmed, "s:")
+	switch {
+	case cat == "surrounding-whitespace":
+		if topStr && strings.HasPrefix(in, "s:") {
+			// accepted by TrimSpace and, independently, by the top-level string fallback
+			return "top-level-string-trailing-whitespace"
+		}
+		return cat
+	case cat == "array-key-type":
+		return cat
+	case strings.Contains(in, "s:") && strings.Contains(in, "\""):
+		// a string token is present: its extent is what the reader gets wrong
+		if topStr {
+			return "string-scan:top-level-string:" + cat
+		}
+		return "string-scan:nested:" + cat
+	}
+	return cat
 }
 
 type serEncOutcome int
@@ -616,14 +684,7 @@ func (s *serSec) rawCase(in string) {
 	switch status {
 	case serIll:
 		if !rejected {
-			if strings.Contains(in, "s:") && strings.Contains(in, "\"") && cat != "surrounding-whitespace" {
-				// the input has a string token: its extent is what the reader gets wrong
-				if strings.HasPrefix(strings.TrimSpace(in), "s:") {
-					cat = "string-scan:top-level-string:" + cat
-				} else {
-					cat = "string-scan:nested:" + cat
-				}
-			}
+			cat = classifyAccept(in, cat)
 			w.Violation(pre+"accepts-illformed:"+cat, fmt.Sprintf("unserialize(%q) = %s although the input is not a well-formed serialize document (%s)", in, got, cat), "ser", []byte(in))
 		}
 	case serOK:
@@ -744,9 +805,9 @@ func runPhpSer(w *Worker) {
 					s.decodeCase(v, st)
 				}
 				s.encodeCase(vList(v))
-				s.encodeCase(vMap(KV{"k", v}))
+				s.encodeCase(vMap(KV{K: "k", V: v}))
 				s.decodeCase(vList(v), sstyle{})
-				s.decodeCase(vMap(KV{"k", v}), sstyle{})
+				s.decodeCase(vMap(KV{K: "k", V: v}), sstyle{})
 			}
 		}
 	}
@@ -768,7 +829,7 @@ func runPhpSer(w *Worker) {
 		if i%5 == 0 {
 			v = vList(genValue(r, o, 1), genValue(r, o, 1))
 			if i%10 == 0 {
-				v = vMap(KV{genKey(r, o), genValue(r, o, 1)}, KV{"zz", genValue(r, o, 1)})
+				v = vMap(KV{K: genKey(r, o), V: genValue(r, o, 1)}, KV{K: "zz", V: genValue(r, o, 1)})
 			}
 		}
 		st := styles[r.Intn(len(styles))]
